@@ -262,7 +262,8 @@ func cbFamily() *family {
 		ib, ia, dup, iv, other := layout(c.Edit, stage)
 		mk := func() *cb.Rule {
 			return &cb.Rule{Id: "unchanged", Resource: R, Strategy: cb.Strategy(1 + c.Variant%2), RetryTimeoutMs: uint32(300 + 400*(c.Variant%3)), MinRequestAmount: 2, StatIntervalMs: 5000,
-				StatSlidingWindowBucketCount: 5, Threshold: []float64{0.5, 2}[c.Variant%2], ProbeNum: uint64(c.Variant % 2)}
+				// (bucket counts that divide the interval, that do not - the library then uses one bucket - and unset)
+				StatSlidingWindowBucketCount: []uint32{5, 3, 0, 7}[c.Variant%4], Threshold: []float64{0.5, 2}[c.Variant%2], ProbeNum: uint64(c.Variant % 2)}
 		}
 		inert := func(k int) *cb.Rule {
 			return &cb.Rule{Id: fmt.Sprintf("inert%d", k), Resource: R, Strategy: cb.ErrorCount, RetryTimeoutMs: 1000, MinRequestAmount: 1, StatIntervalMs: 10000, Threshold: 1e9 + float64(iv)}
